@@ -418,6 +418,56 @@ fn extra_programs() -> Vec<ArgCase> {
     }
     out.extend(multi_element_programs());
     out.extend(forwarding_programs());
+    // an activation that is abandoned by a trapped error (RESUME label) after it has assigned the FUNCTION's name:
+    // the next call that assigns nothing returns 0 / "" (STATIC or not, numeric or string result); with RESUME NEXT
+    // the activation goes on and returns what it assigned
+    for is_static in [false, true] {
+        for string_result in [false, true] {
+            for leave in 0..2 {
+                let mut b = B::new();
+                let f = if string_result { "Res$" } else { "Res%" };
+                let val = |n: i64| if string_result { st(&format!("v{}", n)) } else { num(n) };
+                let fail = b.assign(var("Z%"), bin(BinOp::Div, num(1), var("ZERO%")));
+                let set1 = b.assign(var(f), val(103));
+                let set2 = b.assign(var(f), val(7));
+                let body = vec![
+                    b.assign(var("N%"), bin(BinOp::Add, var("N%"), num(1))),
+                    b.s(K::If { arms: vec![(bin(BinOp::Eq, var("M%"), num(1)), vec![set1, fail])], els: None, single_line: false }),
+                    b.s(K::If { arms: vec![(bin(BinOp::Eq, var("M%"), num(2)), vec![set2])], els: None, single_line: false }),
+                    b.print(vec![st("in"), var("M%"), var("N%")]),
+                ];
+                let id = b.id();
+                let sub = SubDef { id, name: f.into(), is_function: true, params: vec![Param { name: "M%".into(), ty: None, is_array: false }], body, is_static };
+                let show = |b: &mut B, m: i64| b.print(vec![st("["), call(f, vec![num(m)]), st("]")]);
+                let mut main = vec![b.s(K::OnErrorGoto("Trap".into()))];
+                main.push(show(&mut b, 0));
+                main.push(show(&mut b, 1));
+                main.push(b.s(K::Label("Cont".into())));
+                main.push(show(&mut b, 0));
+                main.push(show(&mut b, 2));
+                main.push(show(&mut b, 0));
+                main.push(show(&mut b, 1));
+                main.push(b.print(vec![st("not reached when the handler leaves by RESUME label")]));
+                main.push(b.s(K::End));
+                main.push(b.s(K::Label("Trap".into())));
+                main.push(b.print(vec![st("trap"), builtin("ERR", vec![])]));
+                main.push(b.assign(var("T%"), bin(BinOp::Add, var("T%"), num(1))));
+                if leave == 0 {
+                    // the second failure ends the program through the handler's END
+                    let stop = b.s(K::End);
+                    main.push(b.s(K::If { arms: vec![(bin(BinOp::Ge, var("T%"), num(2)), vec![stop])], els: None, single_line: false }));
+                    main.push(b.s(K::ResumeLabel("Cont".into())));
+                } else {
+                    main.push(b.s(K::ResumeNext));
+                }
+                out.push(ArgCase {
+                    prog: Prog { main, subs: vec![sub], declare: true, ..Default::default() },
+                    label: format!("a FUNCTION activation abandoned by a trapped error after it assigned its name: {}{} result, handler leaves by {}", if is_static { "STATIC, " } else { "" }, if string_result { "string" } else { "numeric" }, ["RESUME label", "RESUME NEXT"][leave]),
+                    expect_reject: false,
+                });
+            }
+        }
+    }
     // a STATIC subprogram that calls itself: its variables are shared by the activations, its parameters are not
     for variant in 0..7 {
         for depth in 1..=3 {
